@@ -244,6 +244,13 @@ func loadPool(env *runner.Env, harvest map[string][]trackHarvest) (*pool, error)
 		p.addInput(&input{id: cs.name, class: "file", data: s.data})
 	}
 
+	// a fragmented single-track audio file with one sample of 1.2 MiB, built through the library: the only
+	// input whose mdat is larger than 1 MiB (size-dependent fast paths of the decoders)
+	if big := bigAudioFile(); big != nil {
+		s := p.addShared("file/synthetic-big-audio", big)
+		p.addInput(&input{id: "synthetic-big-audio", class: "file", data: s.data})
+	}
+
 	seenSample := map[[32]byte]bool{}
 	seenSEI := map[[32]byte]bool{}
 	seenPS := map[[32]byte]bool{}
@@ -619,3 +626,37 @@ func craftedSencSegments() []craftedSeg {
 		{"crafted-senc-iv16.m4s", seg(1, z)},
 	}
 }
+
+func bigAudioFile() []byte {
+	init := mp4.CreateEmptyInit()
+	init.AddEmptyTrack(48000, "audio", "und")
+	if err := init.Moov.Trak.SetAACDescriptor(2, 48000); err != nil {
+		return nil
+	}
+	var w bytes.Buffer
+	if err := init.Encode(&w); err != nil {
+		return nil
+	}
+	seg := mp4.NewMediaSegment()
+	frag, err := mp4.CreateFragment(1, 1)
+	if err != nil {
+		return nil
+	}
+	seg.AddFragment(frag)
+	var dt uint64
+	for i, n := range []int{700, 1200000, 333} {
+		data := make([]byte, n)
+		x := uint32(n)*2654435761 + uint32(i)
+		for j := range data {
+			x = x*1664525 + 1013904223
+			data[j] = byte(x >> 24)
+		}
+		frag.AddFullSample(mp4.FullSample{Sample: mp4.Sample{Flags: mp4.SyncSampleFlags, Dur: 1024, Size: uint32(n)}, DecodeTime: dt, Data: data})
+		dt += 1024
+	}
+	if err := seg.Encode(&w); err != nil {
+		return nil
+	}
+	return w.Bytes()
+}
+
